@@ -22,9 +22,6 @@ SLOTS = ['r0', 'n.d.r1', 'l[1]', 'n.k[0]', 'c.x', 'bd.y']
 
 def c14_required(split, q0, q1, q2, q3, q4, q5, a0, a1, a2, a3, a4, a5):
     reset()
-    bits = (1 if q0 else 0) + (2 if q1 else 0) + (4 if q2 else 0) + (8 if q3 else 0) + (16 if q4 else 0) + (32 if q5 else 0)
-    if bits != split['bits']:
-        return True
     req = [q0, q1, q2, q3, q4, q5]
     act = [a0, a1, a2, a3, a4, a5]
 
@@ -72,10 +69,23 @@ def c14_required(split, q0, q1, q2, q3, q4, q5, a0, a1, a2, a3, a4, a5):
     docs = [doc1, doc2]
     if split.get('three'):
         docs = [doc1, '{r0: !required }' if split['three'] == 1 else '{}', doc2]
+    if split.get('inc'):
+        # the subtree below `n` comes from an included template file (virtual file system)
+        from engine import symlib
+        symlib.install_vfs()
+        inc = '{d: {r1: %s, z: 1}, k: [%s, 2]}\n' % (ph(1, '11'), ph(3, '13'))
+        main = ('r0: %s\nn: !include inc.yaml\nl: [1, %s, 3]\nc: !call:engine.targets.f {x: %s, w: 0}\nbd: !bind:engine.targets.g {y: %s}\n'
+                % (ph(0, '10'), ph(2, '12'), ph(4, '14'), ph(5, '15')))
+        symlib.vfs_put('/proj/main.yaml', main)
+        symlib.vfs_put('/proj/inc.yaml', inc)
+        docs = ['/proj/main.yaml', doc2]
     survivors = [SLOTS[i] for i in range(6) if (req[i] or (i == 0 and split.get('three') == 1)) and act[i] == 0]
     note(docs=docs, survivors=survivors)
     try:
-        cfg = Config.build(*docs, raw_yaml=True)
+        if split.get('inc'):
+            cfg = Config.build(*docs, raw_yaml=[False, True])
+        else:
+            cfg = Config.build(*docs, raw_yaml=True)
     except ayerr.Error as e:
         reraise_internal(e)
         note(error='awesomeyaml error ' + repr(e)[:300])
@@ -105,10 +115,13 @@ def _splits(tier):
     out = []
     # the six placeholder bits are fixed per split (load balancing); the later-stage actions stay symbolic
     for bits in range(64):
-        out.append({'bits': bits, 'three': 0})
-        if tier != 'quick':
-            out.append({'bits': bits, 'three': 1})
-            out.append({'bits': bits, 'three': 2})
+        pre = ' and '.join(('' if bits & (1 << i) else 'not ') + 'q%d' % i for i in range(6))
+        out.append({'bits': bits, 'three': 0, 'inc': False, '_pre': pre})
+        if not (bits & 1) and not (bits & 48) and (bits & 10):
+            out.append({'bits': bits, 'three': 0, 'inc': True, '_pre': pre})
+        if tier != 'quick' and bits % 3 == 1:
+            out.append({'bits': bits, 'three': 1, 'inc': False, '_pre': pre})
+            out.append({'bits': bits, 'three': 2, 'inc': False, '_pre': pre})
     return out
 
 
